@@ -313,7 +313,7 @@ theorem mpubLimits_eq : Nsq.Gen.Proto.mpubLimits = ([
   "return return nil, protocol.NewFatalClientErr(nil, \"E_BAD_BODY\", fmt.Sprintf(\"MPUB invalid body size %d\", bodyLen))",
   "if int64(bodyLen) > p.nsqd.getOpts().MaxBodySize",
   "return return nil, protocol.NewFatalClientErr(nil, \"E_BAD_BODY\", fmt.Sprintf(\"MPUB body too big %d > %d\", bodyLen, p.nsqd.getOpts().MaxBodySize))",
-  "assign messages, err := readMPUB(client.Reader, client.lenSlice, topic, p.nsqd.getOpts().MaxMsgSize, p.nsqd.getOpts().MaxBodySize)"] : List String) := rfl
+  "assign messages, err := readMPUB(io.LimitReader(client.Reader, int64(bodyLen)), client.lenSlice, topic, p.nsqd.getOpts().MaxMsgSize, p.nsqd.getOpts().MaxBodySize)"] : List String) := rfl
 
 theorem dpubLimits_eq : Nsq.Gen.Proto.dpubLimits = ([
   "if len(params) < 3",
